@@ -2,6 +2,7 @@
 import json
 from .engine import rule, Result
 from .mir import *
+from . import pathsem
 from .sym import SymEval, Lin
 from . import cprop
 from .rules_guard import owner_fn
@@ -613,44 +614,72 @@ def g5v_cleanup_agreement(prog):
     if f is None:
         r.viol('G5v', 'rows/missing', '-', 'DeserializeRowsVisitor::visit_seq not found')
     else:
-        body = f.body
-        users = []
-        for b, t in body.calls(lambda c: c['name'] in ('free_components', 'try_free_components') or (c['name'] == 'from_raw_parts' and c['path'].startswith('alloc::vec')) or (c['name'] == 'new' and 'DeserializeRow' in c['path'])):
-            n = t['f']['name']
-            pos = {'free_components': 1, 'try_free_components': 1, 'from_raw_parts': 1, 'new': 3}[n]
-            if len(t['args']) > pos:
-                users.append((b, t, t['args'][pos]))
-        r.inst('DeserializeRowsVisitor: %d uses of the initialised-row count' % len(users))
-        if len(users) < 5:
-            r.viol('G5v', 'rows/users', f.loc(), 'expected the row seed, two Vec clean-ups and two free_components calls (found %d sites)' % len(users))
-        roots = set()
-        for b, t, a in users:
-            l = op_local(a)
-            root = access_of_local(body, l).root if l is not None else None
-            steps = access_of_local(body, l).steps if l is not None else None
-            if root is None or steps:
-                r.viol('G5v', 'rows/count-expression/%s' % t['f']['name'], f.loc(t['ln']), '%s is given a length that is not the plain initialised-row counter' % t['f']['name'])
-            else:
-                roots.add(root)
-        if len(roots) > 1:
-            r.viol('G5v', 'rows/different-counters', f.loc(), 'clean-up sites use different row counts: some columns would be freed with the wrong length (double drop or leak)')
-        for root in roots:
-            defs = body.assigns_to(root)
-            incs = 0
-            for b, i, s in defs:
-                if i is None:
-                    r.viol('G5v', 'rows/counter-from-call', f.loc(), 'row counter assigned from a call')
-                    continue
-                rv = s['rv']
-                if rv['k'] == 'use' and op_const(rv['op']) is not None and op_const(rv['op']).get('val') == 0:
-                    continue
-                if rv['k'] == 'binop' and rv['op'].startswith('Add') and op_local(rv['a']) == root and op_const(rv['b']) is not None and op_const(rv['b']).get('val') == 1:
-                    incs += 1
-                    # after a successful row: dominated by the Some(()) arm of the seed's result
-                    continue
-                r.viol('G5v', 'rows/counter-update', f.loc(s['ln']), 'row counter is updated by something other than `+= 1`')
-            if incs != 1:
-                r.viol('G5v', 'rows/counter-increments', f.loc(), 'row counter must be incremented at exactly one site (found %d)' % incs)
+        E = pathsem.analyse(prog, f, max_visits=3)
+        rets = [p for p in E.paths if p.ended == 'return']
+        r.inst('DeserializeRowsVisitor::visit_seq: %d paths (%d returning)' % (len(E.paths), len(rets)))
+        done = set()
+
+        def once(k, ln, msg):
+            if k not in done:
+                done.add(k)
+                r.viol('G5v', 'rows/' + k, f.loc(ln), msg)
+        if E.truncated or not rets:
+            once('not-analysable', None, 'path enumeration cut off')
+
+        def row_status(p, res):
+            d = p.lookup(('discr', res))
+            if d == 1:
+                return 'err'
+            if d == 0:
+                pl = ('f', ('down', res, 'Ok', 0), 0, 'core::result::Result')
+                d2 = p.lookup(('discr', pl))
+                return {1: 'row', 0: 'end'}.get(d2, 'unknown')
+            return 'unknown'
+        n_err = n_seed = 0
+        for p in E.paths:
+            if p.ended not in ('return', 'cutoff'):
+                continue
+            good = 0
+            seeds = p.calls(lambda e: e['name'] == 'new' and 'DeserializeRow' in e['path'] and len(e['args']) > 3)
+            reads = p.calls(lambda e: e['name'] == 'next_element_seed')
+            status = {}
+            for e in reads:
+                status[e['i']] = row_status(p, e['ret'])
+            for sd in seeds:
+                n_seed += 1
+                before = len([1 for e in reads if e['i'] < sd['i'] and status[e['i']] == 'row'])
+                if sd['args'][3] != ('c', before):
+                    once('seed-count', sd['ln'], 'row %d is deserialised into the columns with an initialised-row count of %s (rows completely read so far: %d): rows are written at the wrong offset or over live ones'
+                         % (before, pathsem.tstr(sd['args'][3]), before))
+            if p.ended != 'return':
+                continue
+            good = len([1 for e in reads if status[e['i']] == 'row'])
+            built = p.calls(lambda e: e['name'] == 'new_components_with_capacity')
+            is_err = isinstance(p.ret, tuple) and p.ret[0] == 'agg' and p.ret[2] == 'Err'
+            frees = p.calls(lambda e: e['name'] in ('free_components', 'try_free_components'))
+            vecs = p.calls(lambda e: e['name'] == 'from_raw_parts' and e['path'].startswith('alloc::vec'))
+            if not is_err:
+                if frees:
+                    once('freed-on-success', frees[0]['ln'], 'columns are freed on a path that returns them')
+                continue
+            if not built:
+                continue
+            n_err += 1
+            if len(frees) != 1:
+                once('error-exit-frees', None, 'an error exit of the row reader frees the component columns %d times (must be exactly once)' % len(frees))
+            for e in frees:
+                if e['name'] != 'free_components' or e['args'][1] != ('c', good):
+                    once('different-counters', e['ln'], 'component columns are freed with row count %s after %d completely read rows (double drop or leak)' % (pathsem.tstr(e['args'][1]), good))
+            idv = [e for e in vecs if len(e['args']) == 3]
+            if len(idv) != 1:
+                once('error-exit-identifiers', None, 'an error exit of the row reader rebuilds the identifier column %d times for dropping (must be exactly once)' % len(idv))
+            for e in idv:
+                if e['args'][1] != ('c', good):
+                    once('counter-update', e['ln'], 'identifier column is dropped with length %s after %d completely read rows' % (pathsem.tstr(e['args'][1]), good))
+                if p.calls(lambda m: m['name'] == 'new' and 'ManuallyDrop' in m['path'] and m['args'] and m['args'][0] == e['ret']) or p.calls(lambda m: m['name'] == 'forget' and m['args'] and m['args'][0] == e['ret']):
+                    once('identifiers-leaked', e['ln'], 'the identifier column rebuilt on an error exit is never dropped')
+        if n_err < 3 or n_seed < 3:
+            once('users', None, 'expected error exits after 0 and 1 complete rows and the row seeds to be visible (found %d error exits, %d seeds)' % (n_err, n_seed))
     f = visitor_fn(prog, 'DeserializeColumnsVisitor')
     if f is None:
         r.viol('G5v', 'columns/missing', '-', 'DeserializeColumnsVisitor::visit_seq not found')
